@@ -16,8 +16,7 @@ NEED = ["type_vad", "type_novad", "gain_abs", "gain_delta", "nlsf_ext_lo", "nlsf
         "voiced", "unvoiced", "lag_abs", "lag_delta", "lag_escape", "ltpscale", "ltpscale_skip", "count_plain", "count_chain",
         "count_chain_max", "shell", "shell_skip", "lsb", "sign_lsb_only", "blocks_rounded_up"]
 
-OBS = dict(frames=0, twins=0, voiced=0, conditional=0, lbrr=0, max_ops=0, max_lsb_blocks=0, packets=0, packet_frames=0,
-           mc_leaves=0)
+OBS = dict(frames=0, twins=0, voiced=0, conditional=0, lbrr=0, max_ops=0, packets=0, mc_leaves=0)       # measured while running
 
 
 # ------------------------------------------------------------------------------------------------------------
@@ -57,9 +56,6 @@ def frame_request(rng, rid, flavour=None):
         vals[0] = rng.choice([2, 3, 6, 7])           # type symbol: voiced when the activity table is used
         if fl == 5:
             cc = 2; ps = 2; lb = rng.choice([0, 0, 1]); vad = 1
-    if fl == 4 and rng.random() < 0.5:
-        # a full chain of ten escapes somewhere: exercised with certainty by the directed requests below
-        pass
     return dict(k="F", id=rid, fs=fs, nb=nb, fi=rng.randrange(3), lb=lb, cc=cc, vad=vad, ps=ps, pl=pl, vals=vals)
 
 
@@ -87,6 +83,12 @@ def directed_requests(rng, rid0):
             rid += 1
             out.append(dict(k="F", id=rid, fs=fs, nb=nb, fi=1, lb=1, cc=1, vad=0, ps=2, pl=5, vals=v[:4000]))
             # (c) voiced, conditional after a voiced frame: delta escape then absolute; delta at both ends
+            # (d) the escape followed by an absolute lag just inside / outside what the delta symbol could have coded
+            for dlt in (-9, -8, 11, 12):
+                lag = 40 + dlt
+                v = [2, 7] + [11] * (nb - 1) + [5] + [4] * order + ([2] if nb == 4 else []) + [0] + [lag // (fs // 2), lag % (fs // 2), 1, 2] + [3] * nb + [1, 2] + [9] * 60 + [1, 0, 3] * 300
+                rid += 1
+                out.append(dict(k="F", id=rid, fs=fs, nb=nb, fi=1, lb=0, cc=2, vad=1, ps=2, pl=40, vals=v))
             for dsym, pl in ((0, 20), (1, 20), (20, 20), (1, 3), (20, 16 * fs - 2), (9, 40)):
                 v = [2, 7] + [11] * (nb - 1) + [5] + [0, 6, 8, 6] * (order // 2) + ([2] if nb == 4 else []) + [dsym] + [31, fs // 2 - 1, 1, 2] + [9] * nb + [3, 2] + [9] * 60 + [1, 0, 3] * 300
                 rid += 1
@@ -181,7 +183,7 @@ def harness_lines(reqs, plans, tables):
             out.append("F %d %d %d %d %d %d %d %d %d %d | %s | %s" % (q["id"], q["fs"], q["nb"], q["fi"], q["lb"], q["cc"], q["vad"], q["ps"], q["pl"],
                                                                    p["nidx"], " ".join(map(str, ops)), " ".join(map(str, q["vals"][:nops]))))
         elif q["k"] == "O":
-            out.append("O %d %d %d %d %d %d %d %d" % (q["id"], q["fs"], q["ch"], q["ms"], q["br"], q["cx"], q["seed"], q["n"]))
+            out.append("O %d %d %d %d %d %d %d %d %d" % (q["id"], q["fs"], q["ch"], q["ms"], q["br"], q["cx"], q["seed"], q["n"], q.get("fec", 0)))
     return out
 
 
@@ -229,8 +231,13 @@ def judge(ctx, evpath, what, env, nparts=None):
         total += k
         for m in re.finditer(r'"(REJ|PKREJ) <<([^>]*)>>"', r.out):
             parts = [x.strip() for x in m.group(2).split(",")]
-            rej.append((m.group(1), int(parts[0]), [x == "TRUE" for x in parts[1:]] if m.group(1) == "REJ" else parts[1:]))
-        OBS["packets_not_parsed"] = OBS.get("packets_not_parsed", 0) + len(re.findall(r'"PKSKIP ', r.out))
+            item = (m.group(1), int(parts[0]), [x == "TRUE" for x in parts[1:]] if m.group(1) == "REJ" else parts[1:])
+            if item not in rej:                      # (TLC evaluates the invariant of an initial state more than once)
+                rej.append(item)
+        OBS["packets_not_parsed"] = OBS.get("packets_not_parsed", 0) + len(set(re.findall(r'"PKSKIP <<[^>]*>>', r.out)))
+        for m in set(re.findall(r'"PKLBRR <<(\d+, \d+, \d+)>>', r.out)):
+            OBS["packets_with_lbrr"] = OBS.get("packets_with_lbrr", 0) + 1
+            OBS["lbrr_frames_parsed"] = OBS.get("lbrr_frames_parsed", 0) + int(m.split(",")[2])
         if re.search(r'"BAD ', r.out):
             raise vf.Infra("%s: the harness refused a plan line (event k=bad) in %s" % (what, p))
     vf.log("[trace] %-36s lines=%d chunks=%d rejected=%d" % (what, total, len(chunks), len(rej)))
@@ -287,7 +294,8 @@ def pk_requests(rng, rid0, n, npk):
     out = []
     for i in range(n):
         out.append(dict(k="O", id=rid0 + i + 1, fs=rng.choice([8000, 12000, 16000]), ch=rng.choice([1, 1, 2]), ms=rng.choice([10, 20, 20, 40, 60]),
-                        br=rng.choice([6000, 9000, 12000, 16000, 24000, 32000, 40000]), cx=rng.choice([0, 2, 5, 8, 10]), seed=rng.randrange(1, 1 << 30), n=npk))
+                        br=rng.choice([6000, 9000, 12000, 16000, 24000, 32000, 40000]), cx=rng.choice([0, 2, 5, 8, 10]), seed=rng.randrange(1, 1 << 30), n=npk,
+                        fec=1 if i % 2 == 1 else 0))
     return out
 
 
@@ -325,15 +333,16 @@ def run(ctx):
         failed = sorted(set(re.findall(r'"FAILED ([A-Za-z0-9_]+)"', r.out)))
         for m in re.finditer(r'"TABLEDIFF (\{[^}]*\})"', r.out):
             ctx.spec_drift("SilkIdx", "tables of the built library differ from the RFC 6716 values of SilkIdxTables: " + m.group(1).replace('\\"', ""))
+        if '"CONSTDIFF"' in r.out:
+            ctx.spec_drift("SilkIdx", "constants / table shapes of the built library differ from the model's (SilkIdx!SxConstOK: NLSF amplitude, pulses per block, "
+                           "rate levels, the encoder's silk_max_pulses_table, shell table offsets, codebook sizes)")
         if r.violation:
             if "WholeTablesOK" in failed:
                 ctx.violation("C17 ('every static inverse-CDF table is strictly decreasing and ends at zero'): a table of the speech-frame layer, as exported from "
                               "the built library, is not a proper inverse CDF over the alphabet the format gives it (SilkIdx!WholeTablesOK)",
                               replay_text="MC " + sysn)
                 return
-            if failed == ["SxConstOK"]:
-                ctx.spec_drift("SilkIdx", "constants of the built library differ from the model's (SilkIdx!SxConstOK)")
-            else:
+            if True:
                 raise vf.Infra("SilkIdx design theorem violated (%s, failed %s):\n%s" % (r.violation, failed, r.state_dump[:2500]))
         if r.distinct < 50:
             raise vf.Infra("SilkIdx_mc %s explored only %d states (vacuous)" % (sysn, r.distinct))
@@ -355,14 +364,14 @@ def run(ctx):
     reqs, rid = directed_requests(rng, 0)
     leaves.sort()
     rng.shuffle(leaves)
-    for h, v in leaves[:(150 if q else 3000)]:
+    for h, v in leaves[:(150 if q else 2000)]:
         rid += 1
         reqs.append(dict(k="F", id=rid, fs=h[0], nb=h[1], fi=h[2], lb=h[3], cc=h[4], vad=h[5], ps=h[6], pl=h[7], vals=v))
-    nrand = 500 if q else 12000
+    nrand = 500 if q else 8000
     for i in range(nrand):
         rid += 1
         reqs.append(frame_request(rng, rid))
-    oreqs = pk_requests(rng, rid, 16 if q else 160, 16 if q else 40)
+    oreqs = pk_requests(rng, rid, 16 if q else 120, 16 if q else 40)
     ctx.notes["requests"] = dict(frames=len(reqs), encoder_runs=len(oreqs))
     plans, tables = plan(ctx, reqs, "all", env)
     outs = execute(ctx, exe, reqs, plans, tables, "fr", 8 if q else 12)
@@ -496,8 +505,27 @@ def replay(ctx, exe, env):
 META = dict(
     engine="SilkIdx",
     technique=("TLA+ model of the speech-layer frame (side information and excitation) as decoder and mirror-image encoder of a symbol sequence "
-               "over the range coder's bit counter; tables exported from the built library; TLC exhaustive over parameters x stream policies; "
-               "TLC-planned frames written with the library's range encoder, decoded and re-encoded by the real functions; TLC trace validation"),
-    level_text="(see level_note)",
-    level_note="Growth module: describes how the implementation behaves.",
+               "over the range coder's bit counter; tables exported from the built library at check time and compared with the RFC values kept in "
+               "the spec; TLC exhaustive over parameters x stream policies; TLC-planned frames written with the library's range encoder, decoded by "
+               "the real silk_decode_indices/silk_decode_pulses, re-encoded by the real silk_encode_indices/silk_encode_pulses and decoded again; "
+               "real speech-mode packets of opus_encode parsed from their bytes by the model with the full-width range decoder; TLC trace validation"),
+    level_text=("TLC proves on the model, with the table words of the built library: every symbol is read from a proper inverse CDF whose alphabet is "
+                "the one the format states (and every sub-table of the layer is one: clause of C17); table offsets are whole rows; the decoded indices "
+                "lie in the domains module SilkParams (C18) dequantises (cross-module: gain and residual domains, lag constants, the lag index over a "
+                "three-frame packet stays inside the range C18 checks PitchLags on); signal type 0 iff the no-activity table; conditional coding reads "
+                "an absolute lag only after the delta escape or an unvoiced frame, LTP scaling only when coded independently; a frame that is not "
+                "conditionally coded does not depend on ec_prevSignalType/ec_prevLagIndex; structure and symbol count of the excitation stage "
+                "(escape chains 0..10, shell tree, LSBs, signs); mirror decoder->encoder on canonical streams and encoder->decoder for every record "
+                "of a grid an encoder can want x excitation families x rate levels; the encoder never scales a block more than 7 times and a scaled "
+                "block keeps a pulse (why it never needs the shifted table, witness run must be refuted). Bound on recorded executions: the real "
+                "decoder functions reach exactly the model's range, bit count (whole and 1/8), side information, excitation and ec_prev* memory after "
+                "each stage of TLC-planned frames; the real encoder functions write exactly the model's encoder order for the decoded record "
+                "(range and bit count after each stage), and the real decoder reads that in lock-step to the same record (C02/C18 clauses: "
+                "VIOLATION); real speech-only packets (mono/stereo, 10-60 ms, NB/MB/WB) are parsed from their bytes by FrameHdr's packet-header order "
+                "+ this module's frames to exactly the final range encoder and decoder report."),
+    level_note=("Growth module: describes how the implementation behaves; model-vs-code disagreement with encoder and decoder still in lock-step is "
+                "SPEC-DRIFT, as is a table word that differs from the RFC copy but is still a proper inverse CDF. The twin runs set the encoder's table "
+                "pointers in the harness (silk_setup_fs is static); the encoder's own choice is bound by the whole-codec packets only. LBRR frames are "
+                "bound through planned frames and twins, not through whole-codec packets (packets with LBRR data are counted and skipped). The meaning "
+                "of the indices (dequantisation) is module SilkParams. Trusted: TLC, Json module, my reading of RFC 6716 4.2.7 through the pinned code."),
 )
